@@ -1,6 +1,8 @@
 """A5: order-spec extraction from comparators and agreement with the documented key orders / the gate."""
 from __future__ import annotations
 
+import re
+
 from sa.expr import strip, walk, estr, xstr, is_assign, callee, local_aliases
 from sa.schema import Facts
 
@@ -171,6 +173,12 @@ def bookmark_cursor(ctx, P, rule="ORDER-BOOKMARK"):
             ok = bool(inits) and all("metadata_offset[start]" in r for r in inits)
             ctx.ob(rule, "%s|%s-init" % (name, cur), ok, tu.loc(fn.node),
                    "`%s` initialised with %s" % (cur, inits))
+        # the offset of every sorted row is rewritten whenever the table has metadata at all (an empty row still needs its offset)
+        for l, o, r, nn in F.assigns:
+            if o == "=" and re.search(r"(->|\.)metadata_offset\[\w+\]$", l) and not re.match(r"^(e|m)->", l):
+                conds = [estr(i.kids[0]) for i, br in F.enclosing_ifs(nn)]
+                okg = all(c == "has_metadata" for c in conds)
+                ctx.ob(rule, name + "|offset-store-guard", okg, tu.loc(nn), "`%s = %s` under %s (no condition other than has_metadata: an empty row still needs its offset)" % (l, r, conds))
         # the copy-back reads each row's bytes from where THAT row was (the offset and length saved in the sort record), and the
         # write cursor advances by the length just written
         for a, n in F.calls_to("tsk_memcpy") + F.calls_to("tsk_memmove"):
